@@ -15,7 +15,7 @@ from mtsa.absint import K, R, Ref, S, U, V, State
 from mtsa.index import FunctionInfo, Repo, dotted, norm
 from mtsa.report import AnalysisError
 from . import codec_model as CM
-from .codec_model import ANY, NONE_T, alias, cls, gen
+from .codec_model import ANY, NONE_T, alias, cls, gen, py_repr, type_repr
 from .common import RepoInterp
 from .sig_model import EMPTY
 
@@ -29,50 +29,6 @@ def fwd(name: str) -> R:
 
 def newtype(name: str, module: str, supertype: V) -> R:
     return R("newtype", __name__=K(name), __qualname__=K(name), __module__=K(module), __supertype__=supertype)
-
-
-# ---- CPython's repr of typing objects (catalogue) -----------------------------------------
-def type_repr(t: Any) -> str:
-    """typing._type_repr"""
-    if isinstance(t, R):
-        if t.kind == "cls":
-            m, q = t.fields["__module__"].v, t.fields["__qualname__"].v
-            return q if m == "builtins" else f"{m}.{q}"
-        if t.kind == "td":
-            return f"{t.fields['__module__'].v}.{t.fields['__qualname__'].v}"
-        return py_repr(t)
-    if isinstance(t, K) and t.v is Ellipsis:
-        return "..."
-    return py_repr(t)
-
-
-def py_repr(t: Any) -> str:
-    if isinstance(t, R):
-        if t.kind == "cls":
-            return f"<class '{t.fields['__module__'].v}.{t.fields['__qualname__'].v}'>" if t.fields["__module__"].v != "builtins" else f"<class '{t.fields['__qualname__'].v}'>"
-        if t.kind == "any":
-            return "typing.Any"
-        if t.kind == "alias":
-            return "typing." + t.fields["name"].v
-        if t.kind == "forwardref":
-            return f"ForwardRef({t.fields['__forward_arg__'].v!r})"
-        if t.kind == "newtype":
-            return f"{t.fields['__module__'].v}.{t.fields['__name__'].v}"
-        if t.kind == "td":
-            return f"<class '{t.fields['__module__'].v}.{t.fields['__qualname__'].v}'>"
-        if t.kind == "generic":
-            o, a = t.fields["origin"].v, t.fields["args"].v
-            if o == "Union" and len(a) == 2 and NONE_T in a:
-                other = [x for x in a if x != NONE_T][0]
-                return f"typing.Optional[{type_repr(other)}]"
-            if o == "Tuple" and a == ():
-                return "typing.Tuple[()]"
-            if o == "Callable" and len(a) == 2 and isinstance(a[0], K) and isinstance(a[0].v, tuple):
-                return f"typing.Callable[[{', '.join(type_repr(x) for x in a[0].v)}], {type_repr(a[1])}]"
-            return f"typing.{o}[{', '.join(type_repr(x) for x in a)}]"
-    if isinstance(t, K):
-        return repr(t.v)
-    return "<?>"
 
 
 class AnnoScenario:
